@@ -75,9 +75,21 @@ impl forwarder::UdpDatagramPipeShared for DatagramTransceiverShared {
     async fn on_new_udp_connection(&self, meta: &downstream::UdpDatagramMeta) -> io::Result<()> {
         if let Some(x) = self.associations.lock().unwrap().get_mut(&meta.source) {
             let is_new = x.peers.insert(meta.destination);
+            #[cfg(trusttunnel_verif)]
+            crate::verif_emit!(
+                "AssocAddPeer",
+                "\"s\":\"{}\",\"d\":\"{}\",\"new\":{},\"peers\":{}",
+                meta.source,
+                meta.destination,
+                is_new,
+                x.peers.len()
+            );
             debug_assert!(is_new, "{:?}", meta);
             return Ok(());
         }
+        #[cfg(trusttunnel_verif)]
+        let mut verif_outcome =
+            crate::verif::udp::Outcome::new("AssocOpen", meta.source, meta.destination);
 
         let socket = match socks5_client::connect(
             TcpStream::connect(socks_settings(&self.context.settings).address).await?,
@@ -119,6 +131,8 @@ impl forwarder::UdpDatagramPipeShared for DatagramTransceiverShared {
                 _metrics_guard: metrics_guard,
             },
         );
+        #[cfg(trusttunnel_verif)]
+        verif_outcome.ok();
 
         match self.new_socket_tx.try_send(()) {
             Ok(_) | Err(mpsc::error::TrySendError::Full(_)) => Ok(()),
@@ -134,10 +148,35 @@ impl forwarder::UdpDatagramPipeShared for DatagramTransceiverShared {
 
     fn on_connection_closed(&self, meta: &forwarder::UdpDatagramMeta) {
         let mut associations = self.associations.lock().unwrap();
+        // the events carry the ARGUMENT as given (its orientation is the point)
+        #[cfg(trusttunnel_verif)]
+        if !associations.contains_key(&meta.destination) {
+            crate::verif_emit!(
+                "PeerClosed",
+                "\"s\":\"{}\",\"d\":\"{}\",\"found\":false,\"was\":false,\"left\":0",
+                meta.source,
+                meta.destination
+            );
+        }
         if let Some(mut x) = associations.remove(&meta.destination) {
+            #[cfg(trusttunnel_verif)]
+            let verif_was = x.peers.contains(&meta.source);
             x.peers.remove(&meta.source);
+            #[cfg(trusttunnel_verif)]
+            crate::verif_emit!(
+                "PeerClosed",
+                "\"s\":\"{}\",\"d\":\"{}\",\"found\":true,\"was\":{},\"left\":{}",
+                meta.source,
+                meta.destination,
+                verif_was,
+                x.peers.len()
+            );
             if !x.peers.is_empty() {
                 associations.insert(meta.destination, x);
+            }
+            #[cfg(trusttunnel_verif)]
+            if !associations.contains_key(&meta.destination) {
+                crate::verif_emit!("AssocRelease", "\"src\":\"{}\"", meta.destination);
             }
         }
     }
@@ -367,6 +406,14 @@ impl DatagramSource {
 
     fn on_socket_error(&mut self, source: &SocketAddr, error: io::Error) {
         if let Some(a) = self.shared.associations.lock().unwrap().remove(source) {
+            #[cfg(trusttunnel_verif)]
+            crate::verif_emit!(
+                "AssocError",
+                "\"src\":\"{}\",\"peers\":{},\"kind\":\"{:?}\"",
+                source,
+                a.peers.len(),
+                error.kind()
+            );
             // `UdpClose` carries the client->peer key the pipe's table is keyed by
             self.pending_closures
                 .extend(a.peers.into_iter().map(|peer| {
@@ -484,6 +531,9 @@ impl datagram_pipe::Sink for DatagramSink {
         datagram: downstream::UdpDatagram,
     ) -> io::Result<datagram_pipe::SendStatus> {
         let meta = forwarder::UdpDatagramMeta::from(&datagram.meta);
+        #[cfg(trusttunnel_verif)]
+        let mut verif_outcome =
+            crate::verif::udp::Outcome::new("S5Write", meta.source, meta.destination);
         let socket = self
             .shared
             .associations
@@ -492,6 +542,9 @@ impl datagram_pipe::Sink for DatagramSink {
             .get(&meta.source)
             .map(|x| x.socket.clone())
             .ok_or_else(|| io::Error::from(ErrorKind::NotFound))?;
+        // reported: the association was found and the datagram is about to be sent
+        #[cfg(trusttunnel_verif)]
+        verif_outcome.ok();
 
         socket
             .send_to(datagram.payload.as_ref(), meta.destination)
